@@ -215,3 +215,60 @@ func (w *SimWriter) As(kind int) io.Writer {
 	}
 	return w
 }
+
+// Readers, too, differ in what they implement besides Read (bufio.Reader,
+// *os.File and bytes.Buffer are io.WriterTo; bufio.Reader is an
+// io.ByteReader); code under test may take another path when it finds one of
+// them. Fragmentation, EOF style and faults are those of the embedded
+// SimReader, which every variant goes through.
+
+// SimWriterToReader also implements io.WriterTo.
+type SimWriterToReader struct{ *SimReader }
+
+func (r SimWriterToReader) WriteTo(w io.Writer) (int64, error) {
+	var total int64
+	buf := make([]byte, 37)
+	for {
+		n, err := r.SimReader.Read(buf)
+		if n > 0 {
+			m, werr := w.Write(buf[:n])
+			total += int64(m)
+			if werr != nil {
+				return total, werr
+			}
+		}
+		if err == io.EOF {
+			return total, nil
+		}
+		if err != nil {
+			return total, err
+		}
+	}
+}
+
+// SimByteReader also implements io.ByteReader.
+type SimByteReader struct{ *SimReader }
+
+func (r SimByteReader) ReadByte() (byte, error) {
+	var b [1]byte
+	for {
+		n, err := r.SimReader.Read(b[:])
+		if n == 1 {
+			return b[0], nil // an error delivered with the byte is reported by the next call
+		}
+		if err != nil {
+			return 0, err
+		}
+	}
+}
+
+// As wraps r in one of the capability variants (0 = plain io.Reader).
+func (r *SimReader) As(kind int) io.Reader {
+	switch kind % 3 {
+	case 1:
+		return SimWriterToReader{r}
+	case 2:
+		return SimByteReader{r}
+	}
+	return r
+}
